@@ -530,3 +530,92 @@ func stripAssert(e ast.Expr) ast.Expr {
 		}
 	}
 }
+
+// c02r11: data file naming: one producer of names, used with the chunk's own
+// index everywhere, and the directory scans glob for the same suffix.
+func c02r11(c *Ctx) {
+	const R = "C02.R11"
+	suffix := ""
+	if f := c.fn(R, "store.genDataPath"); f != nil {
+		info := f.Info()
+		ok := false
+		for _, s := range f.CallsTo("fmt.Sprintf") {
+			if len(s.Expr.Args) == 3 {
+				if fs, isS := prog.ConstString(info, s.Expr.Args[0]); isS && strings.HasPrefix(fs, "%s/%03d") && prog.ObjOf(info, s.Expr.Args[1]) == f.Param(0) && prog.ObjOf(info, s.Expr.Args[2]) == f.Param(1) {
+					ok = true
+					suffix = strings.TrimPrefix(fs, "%s/%03d")
+				}
+			}
+		}
+		c.check(ok && suffix != "", R, f.Key+": <home>/<chunk:%03d><suffix>", f.Pos(), "suffix "+suffix, "data file names are no longer <home>/<three-digit chunk id>.data")
+	}
+	if suffix == "" {
+		return
+	}
+	sameIndex := func(f *prog.Func, lhsField string) bool {
+		info := f.Info()
+		ok := false
+		ast.Inspect(f.Decl.Body, func(x ast.Node) bool {
+			call, isC := x.(*ast.CallExpr)
+			if !isC || prog.CalleeKey(info, call) != "store.genDataPath" || len(call.Args) != 2 {
+				return true
+			}
+			iv := prog.ObjOf(info, call.Args[1])
+			if iv == nil {
+				return true
+			}
+			// the same variable indexes ds.chunks in the statement(s) around it
+			found := false
+			ast.Inspect(f.Decl.Body, func(y ast.Node) bool {
+				if ix, isIx := y.(*ast.IndexExpr); isIx && prog.IsField(info, "store.dataStore.chunks")(prog.Unparen(ix.X)) && prog.ObjOf(info, ix.Index) == iv {
+					found = true
+				}
+				return true
+			})
+			if found {
+				ok = true
+			}
+			return true
+		})
+		return ok
+	}
+	if f := c.fn(R, "store.NewdataStore"); f != nil {
+		c.check(sameIndex(f, ""), R, f.Key+": chunks[i].path = genDataPath(home, i)", f.Pos(), "same index", "a chunk is given the path of another chunk id")
+	}
+	if f := c.fn(R, "store.dataStore.ListFiles"); f != nil {
+		c.check(sameIndex(f, ""), R, f.Key+": size of chunks[i] taken from genDataPath(home, i)", f.Pos(), "same index", "the start-up scan records the size of one data file under another chunk id")
+	}
+	if f := c.fn(R, "store.dataStore.genPath"); f != nil {
+		info := f.Info()
+		ok := false
+		for _, g := range f.CallsTo("store.genDataPath") {
+			if len(g.Expr.Args) == 2 && prog.IsField(info, "store.dataStore.home")(prog.Unparen(g.Expr.Args[0])) && prog.ObjOf(info, g.Expr.Args[1]) == f.Param(0) {
+				ok = true
+			}
+		}
+		c.check(ok, R, f.Key+": genDataPath(ds.home, chunkID)", f.Pos(), "forwarded", "a data store builds paths outside its own directory or for another chunk")
+	}
+	// globs
+	for _, k := range []string{"store.Bucket.close", "store.HStore.scanBuckets", "store.NewHStore", "store.HStore.getBucketPath"} {
+		f := c.P.F(k)
+		if f == nil {
+			continue
+		}
+		info := f.Info()
+		for _, g := range f.CallsTo("filepath.Glob") {
+			lit := ""
+			ast.Inspect(g.Expr, func(x ast.Node) bool {
+				if bl, ok := x.(*ast.BasicLit); ok && bl.Kind == token.STRING && strings.Contains(bl.Value, "*") {
+					if s, isS := prog.ConstString(info, bl); isS {
+						lit = s
+					}
+				}
+				return true
+			})
+			if lit == "" || !strings.Contains(lit, "*.") || strings.Contains(lit, "idx") {
+				continue
+			}
+			c.check(strings.HasSuffix(lit, "*"+suffix), R, f.Key+": scans for *"+suffix, g.Pos(), "same suffix as genDataPath", "a directory scan looks for data files under the pattern "+lit+", which does not match the names genDataPath produces: a bucket with data is taken for empty (or not dumped at close)")
+		}
+	}
+}
